@@ -48,6 +48,8 @@ CONFIGS = {
     "asan-dyn": ("g++", ASAN + WSM + ["-DSONIC_DYNAMIC_DISPATCH"]),
     "prod-dyn": ("g++", PROD + WSM + ["-DSONIC_DYNAMIC_DISPATCH"]),
     "tsan": ("clang++", ["-O1", "-g", "-fsanitize=thread"] + HSW),
+    # g++'s ThreadSanitizer also instruments 32-byte vector loads (clang's ignores them)
+    "tsan-gcc": ("g++", ["-O1", "-g", "-fsanitize=thread", "-pthread"] + HSW),
     "tsan-locked": ("clang++", ["-O1", "-g", "-fsanitize=thread", "-DSONIC_LOCKED_ALLOCATOR"] + HSW),
     "sched": ("g++", ASAN + HSW + ["-DBYTEDANCE_SONIC_CPP_VERIF", "-DSONIC_LOCKED_ALLOCATOR", "-pthread"]),
     "sched-prod": ("g++", ["-O1", "-g"] + HSW + ["-DBYTEDANCE_SONIC_CPP_VERIF", "-DSONIC_LOCKED_ALLOCATOR", "-pthread"]),
@@ -123,9 +125,11 @@ CHECKS = {
                 J("serenum", "prod-hsw", ["--only", "T9_fenced_blocks"], label="prod-hsw/serialize-fenced-strings") + J("serenum", "prod-wsm", ["--only", "T9_fenced_blocks"], label="prod-wsm/serialize-fenced-strings") +
                 J("serenum", "prod-dyn", ["--only", "T9_fenced_blocks"], label="prod-dyn/serialize-fenced-strings") +
                 J("serenum", "asan-hsw", ["--only", "T10_closes_after_strings_x_capacity"], label="asan-hsw/serialize-capacity-sweep") +
+                J("tsanrun", "tsan", ["--only", "TQ_quote_next_to_foreign_writes"], env={"TSAN_OPTIONS": "halt_on_error=1:exitcode=66:report_signal_unsafe=0"}, label="tsan/quote-next-to-foreign-writes") +
+                J("tsanrun", "tsan-gcc", ["--only", "TQ_quote_next_to_foreign_writes"], env={"TSAN_OPTIONS": "halt_on_error=1:exitcode=66:report_signal_unsafe=0"}, label="tsan-gcc/quote-next-to-foreign-writes") +
                 (J("kernels", "asan-wsm", ["--prop", "C09"]) + J("kernels", "prod-dyn", ["--prop", "C09"], label="prod-dyn/dispatched") if t == "thorough" else []),
                 budget=dict(quick=300, thorough=3000),
-                rule="internal::Quote on every length 0..100 with every byte value at every position and two special bytes at all position pairs; output validated byte by byte (verbatim copies, correct escapes, length <= 6n+2); production build: source ending 0..64 bytes before an unmapped page with three different in-page tails (output must not depend on them), destination exactly 6n+35 bytes before an unmapped page; ASan: exact-size heap source and destination. Long strings (one special byte at every position up to 4097 bytes). Three further jobs serialise documents whose allocator places every block (copied strings own exactly len+1 bytes) directly in front of an inaccessible page."),
+                rule="internal::Quote on every length 0..100 with every byte value at every position and two special bytes at all position pairs; output validated byte by byte (verbatim copies, correct escapes, length <= 6n+2); production build: source ending 0..64 bytes before an unmapped page with three different in-page tails (output must not depend on them), destination exactly 6n+35 bytes before an unmapped page; ASan: exact-size heap source and destination. Long strings (one special byte at every position up to 4097 bytes). Three further jobs serialise documents whose allocator places every block (copied strings own exactly len+1 bytes) directly in front of an inaccessible page. Two ThreadSanitizer jobs (clang and gcc builds): one thread serialises a string view of n bytes (n in 0..99, four alignments) of a shared arena while another thread stores to the bytes right behind it - any read outside the view is a reported race."),
     "C14": dict(level="exploration", engine="kernels",
                 jobs=lambda t: J("kernels", "prod-hsw", ["--prop", "C14"]) + J("kernels", "asan-hsw", ["--prop", "C14"]) + J("kernels", "prod-wsm", ["--prop", "C14"]) + (J("kernels", "prod-dyn", ["--prop", "C14"]) if t == "thorough" else []),
                 rule="InlinedMemcmpEq == (memcmp==0) and sign(InlinedMemcmp)==sign(memcmp) for every length, every first-difference index, sign-sensitive byte pairs, a later opposite difference, both operands placed independently 0..40 bytes before an unmapped page / at every start offset mod 32; FindMember/HasMember with and without the lookup map agree with byte equality."),
